@@ -54,6 +54,7 @@ func properties() map[string]*PropertySpec {
 			nat("H_C04_extended", "written", "WithResponseCode or not, <= 2 setters", ""),
 			nat("H_C04_modify", "written", "every subset of 3 options, <= 2 setters", ""),
 			nat("H_C04_entry", "written", "<= 2 attributes x <= 2 values in the order added", ""),
+			nat("H_C04_two", "written", "two responses of 4 kinds each created from the same request, values set in interleaved order, both written", ""),
 			nat("H_C04_lemma_int", "lemma", "every int64", ""),
 			nat("H_C04_lemma_len", "lemma", "every string shorter than 2^31 bytes", ""),
 		}})
